@@ -421,7 +421,7 @@ func main() {
 	var jobs []job
 	add := func(c Case) { jobs = append(jobs, job{c: c}) }
 	r := lib.NewRand(f.Seed*0x9e3779b97f4a7c15 + 12)
-	nRandom := 2500
+	nRandom := 5000
 	coreR, coreC := 2, 1
 	rmR := 2
 	nRace := 2
@@ -436,19 +436,19 @@ func main() {
 	for i := 0; i < nRace; i++ {
 		add(Case{Mode: "acrace", Junk: 150000 + 100000*i})
 	}
+	enumCore("rcm", coreR, coreC, add)
+	enumCore("rm", rmR, 0, add)
 	if f.Tier == "thorough" {
-		enumCore("rcm", coreR, coreC, add)
-		enumCore("rm", rmR, 0, add)
-	} else {
-		// quick: the exhaustive core is sampled by seed (one residue class of 4), RM core in full
+		// 3 runners × ≤1 closer: one residue class (by seed) of the exhaustive product
 		k := 0
-		enumCore("rcm", coreR, coreC, func(c Case) {
-			if uint64(k)%4 == f.Seed%4 {
-				add(c)
+		enumCore("rcm", 3, 1, func(c Case) {
+			if len(c.Runners) == 3 {
+				if uint64(k)%3 == f.Seed%3 {
+					add(c)
+				}
+				k++
 			}
-			k++
 		})
-		enumCore("rm", rmR, 0, add)
 	}
 	for i := 0; i < nRandom; i++ {
 		add(genRandom(r.Fork()))
@@ -488,7 +488,7 @@ func main() {
 		res.Note(fmt.Sprintf("%d cases skipped after %d cases hung", rn.skipped, rn.hung))
 	}
 	res.Exhaustive = f.Tier == "thorough" && rn.skipped == 0
-	res.Note(fmt.Sprintf("cases=%d workers=%d wall=%.1fs; exhaustive core: rcm ≤%d runners × ≤%d closers (all behaviours, orders, grace policies, 7 Close placements), rm ≤%d runners; random samples over 0..4 × 0..4: %d",
+	res.Note(fmt.Sprintf("cases=%d workers=%d wall=%.1fs; exhaustive core: rcm ≤%d runners × ≤%d closers (all behaviours, orders, grace policies, 7 Close placements), rm ≤%d runners; random samples over 0..4 × 0..4: %d; thorough adds a third (by seed) of 3 runners × ≤1 closer",
 		len(jobs), workers, time.Since(start).Seconds(), coreR, coreC, rmR, nRandom))
 	res.Write(f.Out)
 }
